@@ -203,8 +203,25 @@ func (rn *runner) run(in *input, si int) (*result, error) {
 					res.Monitor = append(res.Monitor, fmt.Sprintf("reply %s with tag %d that no outstanding request has", f.Name, tg))
 					break
 				}
-				r := byID[q[0]]
-				pending[tg] = q[1:]
+				// several outstanding requests may carry one tag (a frame that re-uses a busy tag): the reply belongs
+				// to the oldest of them that expects this reply type, else to the oldest
+				qi := 0
+				for k, cand := range q {
+					c := byID[cand]
+					w := "Rflush"
+					switch c.Kind {
+					case "op":
+						w = replyType[c.Op]
+					case "bad":
+						w = "Rlerror"
+					}
+					if w == f.Name {
+						qi = k
+						break
+					}
+				}
+				r := byID[q[qi]]
+				pending[tg] = append(append([]int{}, q[:qi]...), q[qi+1:]...)
 				replied[r.ID] = true
 				want := "Rflush"
 				switch r.Kind {
@@ -271,6 +288,13 @@ func (rn *runner) run(in *input, si int) (*result, error) {
 				pending[tg] = append(pending[tg], id)
 				err = raw.Send("Tflush", uint16(tg), wirecodec.Values{"oldtag": r.Old})
 			case "bad":
+				if r.Op == "type" {
+					// a frame of a type the server does not know, carrying whatever tag the configuration gives it
+					// (possibly that of a request in progress): answered Rlerror with that tag, no tag bookkeeping
+					pending[tg] = append(pending[tg], id)
+					err = raw.SendBytes([]byte{11, 0, 0, 0, 124, byte(tg), byte(tg >> 8), 1, 2, 3, 4})
+					break
+				}
 				// a Twalk whose name count exceeds its body: well delimited, undecodable.
 				// The server answers with NOTAG (recv reports no tag for decode errors).
 				pending[0xFFFF] = append(pending[0xFFFF], id)
